@@ -136,7 +136,7 @@ pub fn lanes() -> Vec<Lane> {
         Lane { name: "typed", count: |c| if c.thorough() { 400_000 } else { 20_000 }, run: typed_lane },
         Lane { name: "pgp", count: |c| if c.thorough() { 40_000 } else { 2_000 }, run: pgp_lane },
         Lane { name: "corpus", count: |c| if c.thorough() { 3_000 } else { 400 }, run: corpus_lane },
-        Lane { name: "scale", count: |_| (FAMILIES.len() * 2) as u64, run: scale_lane },
+        Lane { name: "scale", count: |_| (FAMILIES.len() * 3) as u64, run: scale_lane },
     ]
 }
 
@@ -494,7 +494,7 @@ struct Family {
     make: fn(usize) -> String,
 }
 
-const FAMILIES: [Family; 14] = [
+const FAMILIES: [Family; 20] = [
     Family { name: "one-huge-line", kind: 0, make: |n| format!("A: {}\n", "x".repeat(n)) },
     Family { name: "many-short-fields", kind: 0, make: |n| "A: b\n".repeat(n / 5 + 1) },
     Family { name: "many-paragraphs", kind: 0, make: |n| "A: b\n\n".repeat(n / 6 + 1) },
@@ -509,6 +509,12 @@ const FAMILIES: [Family; 14] = [
     Family { name: "whitespace-run", kind: 1, make: |n| format!("a{}", " ".repeat(n)) },
     Family { name: "rel-errors", kind: 1, make: |n| "@".repeat(n) },
     Family { name: "open-parens", kind: 1, make: |n| "a (".repeat(n / 3 + 1) },
+    Family { name: "comment-run-inside-paragraph", kind: 0, make: |n| format!("A: b\n{}C: d\n", "#\n".repeat(n / 2 + 1)) },
+    Family { name: "comment-run-at-end", kind: 0, make: |n| format!("A: b\n{}", "#\n".repeat(n / 2 + 1)) },
+    Family { name: "blank-continuations", kind: 0, make: |n| format!("A: b\n{}C: d\n", " \n".repeat(n / 2 + 1)) },
+    Family { name: "many-architectures", kind: 1, make: |n| format!("a [{}]", "b ".repeat(n / 2 + 1)) },
+    Family { name: "many-profile-groups", kind: 1, make: |n| format!("a {}", "<b> ".repeat(n / 4 + 1)) },
+    Family { name: "substvar-run", kind: 1, make: |n| "${a}, ".repeat(n / 6 + 1) },
 ];
 
 /// log-log slope between the two largest sizes (robust against constant terms)
@@ -521,9 +527,41 @@ fn exponent(xs: &[(f64, f64)]) -> f64 {
     (y1 / y0).ln() / (x1 / x0).ln()
 }
 
+/// Stack clause: none of the grammars nests, so the deepest frame reached must not grow with the length of the
+/// input. Measured with a painted stack (rt::stack_high_water) at the smallest and the largest size of the series;
+/// the allowance covers allocator/formatting paths that are only taken for large buffers.
+const STACK_GROWTH_ALLOWANCE: usize = 32 << 10;
+
+fn stack_series(ctx: &mut Ctx, fam: &Family) {
+    let top = if ctx.thorough() { 15 } else { 13 };
+    for (name, f) in eps_of(fam.kind).iter() {
+        let small = (fam.make)(1usize << (top - 5));
+        let large = (fam.make)(1usize << top);
+        let (Some(d0), Some(d1)) = (crate::rt::stack_high_water(|| { let _ = f(&small); }), crate::rt::stack_high_water(|| { let _ = f(&large); })) else {
+            ctx.count("stack-probe-unavailable");
+            continue;
+        };
+        ctx.count("calls");
+        ctx.count("stack-probes");
+        ctx.max("stack-bytes", d1 as f64);
+        ctx.max("stack-growth-bytes", d1.saturating_sub(d0) as f64);
+        if d1 > d0 + STACK_GROWTH_ALLOWANCE {
+            ctx.violation(
+                &format!("stack-grows-with-input|{}|scale:{}", name, fam.name),
+                json!({"family": fam.name, "bytes_small": small.len(), "stack_small": d0, "bytes_large": large.len(), "stack_large": d1}),
+            );
+        }
+        ctx.nontrivial(format!("{}|{}|stack", fam.name, name).as_bytes());
+    }
+    ctx.sample(|| json!({"family": fam.name, "measure": "stack high-water bytes", "sizes": format!("2^{} and 2^{}", top - 5, top)}));
+}
+
 fn scale_lane(ctx: &mut Ctx, idx: u64) {
-    let fam = &FAMILIES[(idx as usize) / 2];
-    let which = (idx % 2) as usize; // 0: steps, 1: allocations
+    let fam = &FAMILIES[(idx as usize) / 3];
+    let which = (idx % 3) as usize; // 0: steps, 1: allocations, 2: stack depth
+    if which == 2 {
+        return stack_series(ctx, fam);
+    }
     let top = if ctx.thorough() { 15 } else { 13 };
     for (name, f) in eps_of(fam.kind).iter() {
         let mut series: Vec<(f64, f64)> = vec![];
